@@ -280,8 +280,9 @@ def r6_idle_client(ctx, rid='C19.R6'):
         fe = core.guard_edges(F, cp, [HS], lambda l: l is False)
         for w in wakes:
             ok = bool(te) and bool(fe) and cp.dominated_by_edges(w, te) and cp.dominated_by_edges(w, fe)
-            atoms = core.dominating_atoms(F, cp, w)
-            extra = sorted(a for a in atoms if a not in ('call:has_streams_or_other_references', 'call:is_pending', 'call:poll', 'call:map_err'))
+            okset = ('call:has_streams_or_other_references', 'call:is_pending', 'call:poll', 'call:map_err')
+            atoms = core.expand_atoms(F, core.dominating_atoms(F, cp, w), okset)
+            extra = sorted(a for a in atoms if a not in okset)
             r.check(ok and not extra, 'client|recheck|guard', cp.loc(w),
                     'the extra wake-up happens exactly when the poll is pending, streams-or-references existed before it and none exist after it (conditions: %s)%s' % (
                         sorted(atoms), '' if ok and not extra else ' — a narrower "before" test misses handles dropped by another thread during the poll: the connection parks with no waker registered and never sends its GOAWAY'))
@@ -311,7 +312,7 @@ def r8_last_ref_wakes(ctx, rid='C19.R8'):
     r.floor(len(wakes), 1, 'wake sites in drop_stream_ref')
     allowed = {'field:ref_count', 'call:is_closed', 'field:task'}
     for bi in wakes:
-        atoms = core.dominating_atoms(F, f, bi)
+        atoms = core.expand_atoms(F, core.dominating_atoms(F, f, bi), allowed)
         extra = sorted(a for a in atoms if a not in allowed)
         need = {'field:ref_count', 'call:is_closed'} <= atoms
         r.check(not extra, 'drop_stream_ref|wake-guard', f.loc(bi),
